@@ -54,6 +54,22 @@ func c15Defines() []c15Def {
 			"B": func(c ref.DefCtx) bool { f, ok := c.FirstOf("A"); return ok && c.Cur().V > f.V },
 			"C": func(c ref.DefCtx) bool { return c.CountOf("A") < 3 },
 		}},
+		// one function called twice in one condition with different arguments (another column, another offset,
+		// another variable): every call must see its own arguments
+		{"twice-nav", map[string]string{"A": "v >= 1", "B": "v > PREV(v) AND id - PREV(id) = 1", "C": "v < PREV(v, 1) OR v > PREV(v, 2)"}, ref.Define{
+			"A": func(c ref.DefCtx) bool { return c.Cur().V >= 1 },
+			"B": func(c ref.DefCtx) bool { p, ok := c.Prev(); return ok && c.Cur().V > p.V && c.Cur().ID-p.ID == 1 },
+			"C": func(c ref.DefCtx) bool {
+				p1, ok1 := c.PrevN(1)
+				p2, ok2 := c.PrevN(2)
+				return ok1 && c.Cur().V < p1.V || ok2 && c.Cur().V > p2.V
+			},
+		}},
+		{"twice-agg", map[string]string{"A": "v >= 1", "B": "v >= FIRST(A.v) AND id - FIRST(A.id) >= 2", "C": "COUNT(A.*) < 3 AND COUNT(B.*) < 2"}, ref.Define{
+			"A": func(c ref.DefCtx) bool { return c.Cur().V >= 1 },
+			"B": func(c ref.DefCtx) bool { f, ok := c.FirstOf("A"); return ok && c.Cur().V >= f.V && c.Cur().ID-f.ID >= 2 },
+			"C": func(c ref.DefCtx) bool { return c.CountOf("A") < 3 && c.CountOf("B") < 2 },
+		}},
 	}
 }
 
@@ -92,7 +108,7 @@ func c15SQL(p ref.Pat, d c15Def, skip string, allRows bool) string {
 			defs = append(defs, name+" AS "+d.SQL[name])
 		}
 	}
-	rows := "MEASURES MATCH_NUMBER() AS mn, FIRST(id) AS f, LAST(id) AS l, LAST(k) AS pk ONE ROW PER MATCH"
+	rows := "MEASURES MATCH_NUMBER() AS mn, FIRST(id) AS f, LAST(id) AS l, LAST(k) AS pk, LAST(id) * 10 - LAST(v) AS dl, FIRST(id) * 10 + FIRST(v) AS df ONE ROW PER MATCH"
 	if allRows {
 		rows = "MEASURES MATCH_NUMBER() AS mn, CLASSIFIER() AS cl ALL ROWS PER MATCH"
 	}
@@ -433,6 +449,21 @@ func (c15) Run(u fw.Unit) fw.Result {
 					a.fail(fmt.Sprintf("C15|%s|pattern=%s|define=%s|skip=%s", kind, p.String(), d.Name, cfg.Skip),
 						fmt.Sprintf("%s over v=%v: reported (mn,first,last) %v, reference %v", sql, vals1(ev), got, wantObs), cs, wantObs, got)
 					return
+				}
+				// measures calling one function twice with different columns
+				mi := 0
+				for _, b := range r.Batches {
+					for _, row := range b {
+						m := want[mi]
+						mi++
+						dl, ok1 := num(row["dl"])
+						df, ok2 := num(row["df"])
+						wl, wf := float64(ev[m.End-1].ID)*10-ev[m.End-1].V, float64(ev[m.Start].ID)*10+ev[m.Start].V
+						if !ok1 || !ok2 || dl != wl || df != wf {
+							a.fail("C15|measures|same-function-two-columns", fmt.Sprintf("%s over v=%v: match %d reports LAST(id)*10-LAST(v)=%v, FIRST(id)*10+FIRST(v)=%v; reference %v, %v", sql, vals1(ev), mi, row["dl"], row["df"], wl, wf), cs, []float64{wl, wf}, []any{row["dl"], row["df"]})
+							return
+						}
+					}
 				}
 				// ALL ROWS PER MATCH: classification of each reported run must be a valid labeling
 				if idx%4 == 0 && len(want) > 0 {
